@@ -121,7 +121,8 @@ let do_ho line =
     if not init_ok then "reject 0 initial-state" else begin
       (* backtracking search over the environment outcomes (they are not observable at once) *)
       let deepest = ref 0 and why = ref "" in
-      let rec explain k st evs = match evs with
+      let budget = ref 30000000 in   (* nodes of the search: a trace that no run of the model explains can make it exponential *)
+      let rec explain k st evs = if !budget <= 0 then None else begin decr budget; match evs with
         | [] -> if (K.first_error st <> None) = (apierr = "E") then Some st
                 else begin (if k >= !deepest then (deepest := k; why := "api-result-not-explained")); None end
         | [t; site; c] :: rest ->
@@ -139,10 +140,11 @@ let do_ho line =
              if k >= !deepest then begin deepest := k;
                why := Printf.sprintf "task=%d site=%d cnt=%s model_cnt=%s" ti site (Z.to_string c) (sz st.K.cnt) end;
              None)
-        | _ -> None in
+        | _ -> None end in
       (match explain n !st (drop n evs) with
        | Some s -> Printf.sprintf "ok %s %s" (sz s.K.cnt) (match K.first_error s with Some _ -> "E" | None -> "-")
-       | None -> Printf.sprintf "reject %d %s" !deepest !why)
+       | None -> if !budget <= 0 then Printf.sprintf "reject %d search-budget-exhausted %s" !deepest !why
+                 else Printf.sprintf "reject %d %s" !deepest !why)
     end
   | _ -> "badcase"
 
